@@ -86,6 +86,7 @@ var c04Pool = []kval{
 	{"k_fnwide", func() interface{} { return func(h WideHelperContext) string { return "wide" } }},  // an interface that plush.HelperContext does not satisfy although it embeds the helper-context methods
 	{"k_fnphc", func() interface{} { return func(h *plush.HelperContext) string { return "phc" } }}, // pointer to the helper context: implements the interface, neither assignable nor convertible
 	{"k_pit", func() interface{} { return &PanicIter{} }},                // an Iterator whose Next panics on its second call
+	{"k_stack", func() interface{} { return &IntStack{1, 2, 3, 4, 5} }}, // a pointer to a slice with methods that change its length
 	{"k_void", func() interface{} { return func(s string) {} }}, // a Go function without results
 	{"k_voider", func() interface{} { return Voider{} }},        // a value with a method without results
 	{"k_embs", func() interface{} { return WithNilStringer{} }},                                     // String() promoted through a nil embedded pointer
@@ -184,7 +185,7 @@ func init() {
 			return s
 		},
 		Run:  c04Run,
-		Rule: "matrices over a pool of 61 injected value kinds (nil, bools, every int/uint/float width, strings, HTML, slices/arrays/pointers to them, maps of 5 key/value typings, nil map/slice/pointer/func, struct, funcs incl. variadic, iterator, chan, time, error) plus 11 expression-produced kinds (user function object, its call, slice+x, array/hash literal, literals, unknown identifier): (operator x L x R), !L / if(L) / emission / silent statement, L[I] (+ .Field/.Method tails), L[I]=V (all triples), member and method access incl. nil receivers, for over L, L(args<=3), user functions with p params x a args (0..4), and every built-in helper taken from plush.Helpers at run time x argument lists of length <=2 (+block, +options map). Oracle: (out,nil) or (\"\",err); no panic, no step-budget exhaustion, no worker crash. All cases are non-trivial (each is a distinct kind combination). (context) 12 programs rendered with a foreign hctx.Context (helptest) and with NewContextWith(nil). (poly) one field / method / indexed path node evaluated with receivers of different struct types (mixed slice, consecutive executions of one parsed template). (void) a field / index / method / call / loop directly after a Go function or method that returns nothing. (keywords) 14 tokens that start no expression in 19 expression positions (hash key / value, array element, argument, index, assignment value, operand, condition, iterable).",
+		Rule: "matrices over a pool of 61 injected value kinds (nil, bools, every int/uint/float width, strings, HTML, slices/arrays/pointers to them, maps of 5 key/value typings, nil map/slice/pointer/func, struct, funcs incl. variadic, iterator, chan, time, error) plus 11 expression-produced kinds (user function object, its call, slice+x, array/hash literal, literals, unknown identifier): (operator x L x R), !L / if(L) / emission / silent statement, L[I] (+ .Field/.Method tails), L[I]=V (all triples), member and method access incl. nil receivers, for over L, L(args<=3), user functions with p params x a args (0..4), and every built-in helper taken from plush.Helpers at run time x argument lists of length <=2 (+block, +options map). Oracle: (out,nil) or (\"\",err); no panic, no step-budget exhaustion, no worker crash. All cases are non-trivial (each is a distinct kind combination). (context) 12 programs rendered with a foreign hctx.Context (helptest) and with NewContextWith(nil). (poly) one field / method / indexed path node evaluated with receivers of different struct types (mixed slice, consecutive executions of one parsed template). (text-ending) templates whose text ends inside an escape or a tag opener. (shrinking) loops over a pointer to a slice whose body pops / pushes elements through methods. (void) a field / index / method / call / loop directly after a Go function or method that returns nothing. (keywords) 14 tokens that start no expression in 19 expression positions (hash key / value, array element, argument, index, assignment value, operand, condition, iterable).",
 		Bound: func(th bool) string {
 			if th {
 				return "all matrices complete; plus one level of nesting (L op R) op' X for every operator pair over the pool"
@@ -288,6 +289,17 @@ func c04Run(t *engine.T, shard string) {
 			for _, h := range holes {
 				c04Case(t, "keyword", P+h.pre+kw+h.post)
 			}
+		}
+		// literal text ending in the first bytes of an escape or a tag
+		for _, src := range []string{"a \\<", "\\<", "a\\", "<", "a<", "\\<%", "a\\<%", "\\\\<", "\\\\<%", "<%= 1 %>\\<", "<%= 1 %>\\", "<% let a = 1 %>\\<%", "a\\<\\<", "<%", "<%=", "a<%#"} {
+			c04Case(t, "text-ending", src)
+		}
+		// a loop over a pointer to a slice whose body shortens / lengthens that slice through a method
+		for _, src := range []string{
+			`<%= for (v) in k_stack { %><%= k_stack.Pop() %>,<% } %>`, `<%= for (i, v) in k_stack { %><%= k_stack.Pop() %><%= k_stack.Pop() %>,<% } %>`,
+			`<%= for (v) in k_stack { %><% k_stack.Push(v) %><%= if (v > 20) { break } %><% } %>`, `<%= for (v) in k_stack { %><%= for (w) in k_stack { %><%= k_stack.Pop() %><% } %><% } %>`,
+		} {
+			c04Case(t, "shrinking", P+src)
 		}
 		// a path, an index or a call directly after a call that returns nothing
 		for _, src := range []string{
